@@ -8,24 +8,29 @@ use crate::shadow::case::*;
 
 const TIMEOUT_S: u64 = 120;
 
-fn known_fn(_c: &Check) -> impl Fn(&str, &str) -> bool + Sync + 'static {
-    let known: Vec<(String, String)> = crate::runner::load_known_findings().into_iter().filter(|k| k.status == "known").map(|k| (k.property, k.signature)).collect();
-    move |p: &str, s: &str| known.iter().any(|(kp, ks)| kp == p && ks == s)
+fn known_list() -> Vec<crate::runner::KnownFinding> {
+    crate::runner::load_known_findings().into_iter().filter(|k| k.status == "known").collect()
 }
 
 fn run_e1(c: &mut Check, section: &str, cases: u64, property: &'static str, also: &'static [&'static str], strat: fn() -> proptest::strategy::BoxedStrategy<Case>, nt: fn(&Verdict) -> (bool, Vec<&'static str>)) {
-    let is_known = known_fn(c);
+    let known = known_list();
     let threads = c.threads;
     c.shrink_iters = 150;
+    c.also_properties = also.iter().map(|s| s.to_string()).collect();
     replay_saved_inputs(c, property, also, nt);
     c.section_threads(section, cases, threads, strat, move |case: &Case, _env| {
         let t0 = std::time::Instant::now();
         let res = run_case(case, TIMEOUT_S);
         let dt = t0.elapsed().as_secs_f64();
+        if dt > 20.0 {
+            if let Ok(dir) = std::env::var("VH_SAVE_SLOW") {
+                let _ = std::fs::write(format!("{}/slow-{}-{}.json", dir, case.plan, case.ops.len()), serde_json::to_string(case).unwrap());
+            }
+        }
         if dt > 1.0 && std::env::var("VH_TIMING").is_ok() {
             eprintln!("slow case {:.1}s: plan={} heap={} opts={:?} ops={} churn={:?}", dt, case.plan, case.heap_kb, case.opts, case.ops.len(), case.ops.iter().filter_map(|o| if let Op::Churn { kb, .. } = o { Some(*kb) } else { None }).collect::<Vec<_>>());
         }
-        outcome_for(property, also, res, &is_known, &nt)
+        outcome_for_case(case, property, also, res, &known, &nt)
     });
 }
 
@@ -225,7 +230,7 @@ fn replay_saved_inputs(c: &mut Check, property: &'static str, also: &'static [&'
     if c.replay.is_some() {
         return;
     }
-    let is_known = known_fn(c);
+    let known_all = known_list();
     let dir = format!("{}/corpus/{}", crate::runner::VERIF_DIR, property);
     let mut files: Vec<std::path::PathBuf> = match std::fs::read_dir(&dir) {
         Ok(rd) => rd.filter_map(|e| e.ok()).map(|e| e.path()).filter(|p| p.extension().map(|x| x == "json").unwrap_or(false)).collect(),
@@ -246,7 +251,7 @@ fn replay_saved_inputs(c: &mut Check, property: &'static str, also: &'static [&'
         let mut last = None;
         for _ in 0..attempts {
             let res = run_case(&case, TIMEOUT_S);
-            let out = outcome_for_case(Some(&case), property, also, res, &is_known, &nt);
+            let out = outcome_for_case(&case, property, also, res, &known_all, &nt);
             let stop = !matches!(out, Outcome::Pass { .. });
             last = Some(out);
             if stop {
@@ -269,11 +274,11 @@ pub fn c35_system(c: &mut Check) {
 }
 
 fn run_e1_named(c: &mut Check, section: &str, cases: u64, property: &'static str, also: &'static [&'static str], strat: fn() -> proptest::strategy::BoxedStrategy<Case>, nt: fn(&Verdict) -> (bool, Vec<&'static str>)) {
-    let is_known = known_fn(c);
+    let known = known_list();
     let threads = c.threads;
     c.shrink_iters = 100;
     c.section_threads(section, cases, threads, strat, move |case: &Case, _env| {
         let res = run_case(case, TIMEOUT_S);
-        outcome_for(property, also, res, &is_known, &nt)
+        outcome_for_case(case, property, also, res, &known, &nt)
     });
 }
